@@ -128,12 +128,12 @@ Definition cut_selection (text : str) (c o : Z) (st : Z) : option (str * Z * cda
   if len remaining <? newcur then None
   else Some (remaining, newcur, mkcd cut_text' st).
 
-(* TextObject.cut(buffer), as in /repo now: an empty non-linewise range cuts
-   nothing (fix f3ffc71); the exclusive "to -= 1" is not applied to BLOCK
-   objects (fix e0cf816) *)
+(* TextObject.cut(buffer), as in /repo now: an empty range of a character-wise
+   object cuts nothing (fix f3ffc71; not for BLOCK objects, fix 0578190); the
+   exclusive "to -= 1" is not applied to BLOCK objects (fix e0cf816) *)
 Definition to_cut (b : buf) (o : tobj) : option (str * Z * cdata) :=
   let '(f, t) := operator_range (bdoc b) o in
-  if negb (is_linew (ttype o)) && (t <=? f)
+  if negb (is_linew (ttype o) || is_block (ttype o)) && (t <=? f)
   then Some (btext b, bcur b, mkcd [] (selection_type (ttype o)))
   else
     let from_ := f + bcur b in
